@@ -218,3 +218,60 @@ def streak_scenarios(rich: bool) -> list[dict]:
                     cs.append(caller(len(cs) + 1, t + 42.0, kind, 6, 0, 0, 20.0, None, ok))
                     out.append({"mode": mode, "callers": cs, "events": []})
     return out
+
+
+# ---------------------------------------------------------------------------------------------------------------------
+# Gateway life cycle (harness/qos_gw.py, spec/GwyLife.tla): the same send machinery reached through Gateway.async_send_cmd()
+# / Gateway.send_cmd() while the application stops the gateway, starts it again, or the port dies under it.
+
+def _gw_caller(i, t, kind="RQ", api="async", tx=None, to=3.0, mr=3, wfr=None, hops=0, prio=0, outer=None) -> dict:
+    has = HAS_REPLY[kind]
+    return {"id": i, "t": t, "hops": hops, "kind": kind, "zone": i, "prio": prio, "mr": mr, "to": to, "wfr": wfr, "api": api,
+            "tx": tx if tx is not None else [{"echo": 0.01, "reply": 0.05 if has else None}], "outer": outer}
+
+
+# operation sequences: (name, [(dt from T, ev, extra)], dead transports)
+def _gw_op_sequences() -> list[tuple[str, list[tuple[float, str, dict]], list[int]]]:
+    return [
+        ("stop", [(0.0, "gw_stop", {})], []),
+        ("stop,start", [(0.0, "gw_stop", {}), (1.0, "gw_start", {})], []),
+        ("stop,start-at-once", [(0.0, "gw_stop", {}), (EPS, "gw_start", {"hops": 2})], []),
+        ("died,start", [(0.0, "conn_lost", {}), (1.0, "gw_start", {})], []),
+        ("died(err),stop,start", [(0.0, "conn_lost", {"why": "transport"}), (0.5, "gw_stop", {}), (1.0, "gw_start", {})], []),
+        ("stop,stop", [(0.0, "gw_stop", {}), (0.0, "gw_stop", {"hops": 1})], []),
+        ("stop,stop-later,start", [(0.0, "gw_stop", {}), (0.5, "gw_stop", {}), (1.0, "gw_start", {})], []),
+        ("stop,start(silent),start", [(0.0, "gw_stop", {}), (0.5, "gw_start", {}), (4.0, "gw_start", {})], [2]),
+        ("stop,start,stop,start", [(0.0, "gw_stop", {}), (0.5, "gw_start", {}), (1.0, "gw_stop", {}), (1.5, "gw_start", {})], []),
+        ("stop,start,stop-while-starting", [(0.0, "gw_stop", {}), (0.5, "gw_start", {}), (0.52, "gw_stop", {})], []),
+        ("died", [(0.0, "conn_lost", {})], []),
+        ("writefail,stop,start", [(-0.001, "fail_write", {}), (0.0, "gw_stop", {}), (1.0, "gw_start", {})], []),
+    ]
+
+
+def lifecycle_scenarios(rich: bool) -> list[dict]:
+    T = 1.0
+    deaf = [{"echo": None, "reply": None}]
+    slow = [{"echo": 0.3, "reply": 0.35}]
+    out: list[dict] = []
+    # where the first caller stands relative to the first operation at T
+    places = [(-0.5, 0), (-0.011, 0), (-EPS, 0), (0.0, 0), (0.0, 1), (0.0, 2), (0.0, 3), (EPS, 0), (0.02, 0)]
+    if not rich:
+        places = [(-0.5, 0), (-0.011, 0), (0.0, 0), (0.0, 1), (0.0, 2), (EPS, 0)]
+    shapes = [("ok", None, 3.0), ("deaf", deaf, 3.0), ("slow", slow, 3.0)]
+    if rich:
+        shapes += [("deaf20", deaf, 20.0), ("imp", None, 3.0)]
+    n = 0
+    for name, ops, dead in _gw_op_sequences():
+        t_after = T + max(dt for dt, _, _ in ops) + 1.5      # somebody calls once the operations are over
+        for (dt, hops), (sname, tx, to), api in itertools.product(places, shapes, ("async", "task")):
+            n += 1
+            if not rich and n % 3 != 0:      # a third of the grid in the quick tier (it rotates through all coordinates)
+                continue
+            kind = "IMP" if sname == "imp" else "RQ"
+            callers = [_gw_caller(1, T + dt, kind=kind, api=api, tx=tx, to=to, hops=hops),
+                       # a second caller queued right behind the first (it is still queued when the operation comes)
+                       _gw_caller(2, T + dt + 0.001, api="task" if api == "async" else "async", tx=tx if sname == "deaf" else None),
+                       _gw_caller(3, t_after, api=api)]
+            events = [dict({"t": round(T + d, 7), "ev": ev, "hops": 0}, **x) for d, ev, x in ops]
+            out.append({"via": "gateway", "mode": None, "callers": callers, "events": events, "dead": dead, "seq": name})
+    return out
